@@ -1616,6 +1616,19 @@ func TestDriverRegistry(t *testing.T) {
 
 	var base *baseDoc
 	for i := 0; i < n; i++ {
+		i := i
+		if base == nil && (i < 4 || i%5 == 3) {
+			base = makeBase(t)
+		}
+		// one sub-test per case: the chain of a case is released when the case ends (thousands of cases in the thorough tier)
+		t.Run(fmt.Sprintf("case%d", i), func(t *testing.T) { oneCase(t, i, rng, side, cases, base) })
+	}
+	cases.Write(t, 8)
+	side.Write(t, dir)
+}
+
+func oneCase(t *testing.T, i int, rng *Rng, side *Sidecar, cases *CasesFile, base *baseDoc) {
+	{
 		r := rng.Fork(uint64(i))
 		kind := []string{"wiped", "found", "wiped", "initchain", "wiped"}[i%5]
 		flags := (i / 5) % 4
@@ -1627,9 +1640,7 @@ func TestDriverRegistry(t *testing.T) {
 		var init regState
 		switch kind {
 		case "initchain":
-			if base == nil {
-				base = makeBase(t)
-			}
+			require.NotNil(t, base)
 			w = newWorldShell(t, base.c, r, side)
 			w.noteAll(base.bond)
 			w.snapshot0() // the exported supply is the supply the fresh application starts with
@@ -1647,7 +1658,7 @@ func TestDriverRegistry(t *testing.T) {
 				o.res = opResult{class: "panic", info: fmt.Sprint(failure)}
 				o.after = init
 				emitCase(t, cases, side, i, kind, w, init, []stepOut{o}, nil)
-				continue
+				return
 			}
 			w.c = &Chain{T: t, S: base.c.S, App: app, Height: app.LastBlockHeight() + 1, Time: base.c.Time.Add(time.Hour), Step: base.c.Step}
 			o.res = opResult{class: "ok"}
@@ -1679,8 +1690,6 @@ func TestDriverRegistry(t *testing.T) {
 		w.api = r.Chance(35)
 		runCase(t, cases, side, i, kind, w, init, steps)
 	}
-	cases.Write(t, 8)
-	side.Write(t, dir)
 }
 
 func (w *world) noteAll(bond string) {
